@@ -39,3 +39,22 @@ contract(V + "_MessageSerializer.serialize", props=["C13"], types={"message": "d
          raises=[{"cls": "BaseException",
                   "ensures": [("a-serializer-raised-or-a-declared-field-is-missing",
                                "(last(CALLS).tag == 'exc' and last(CALLS).d == box(exc)) or isinst(exc, 'KeyError')", ["C13"])]}])
+
+contract(V + "_MessageSerializer.validate", props=["C14"], types={"message": "dict"}, returns="none",
+         ghosts={"NV": "int"}, ghost_defaults={"NV": "0"},
+         after={"Field.validate#0": [("NV", "NV + 1")]},
+         modifies=["#CALLS", "#NTOP"],
+         loops={0: {"locals": {"NV": "int"}, "modifies": ["#CALLS", "#NTOP"],
+                    "inv": [("declared-fields-so-far-present-and-accepted", "NV == _i and none_missing(_done, message)"),
+                            ("message-untouched", "dict_of(message) == old(dict_of(message)) and dict_of(self.fields) == old(dict_of(self.fields))")]},
+                1: {"locals": {}, "modifies": [],
+                    "inv": [("no-undeclared-key-so-far", "forall(lambda k: implies(contains(_done, k), contains(dict_of(self.fields), k) or k == 'task_level' or k == 'task_uuid' or k == 'timestamp'), 'val')")]}},
+         ensures=[("accepted-means-every-declared-field-present-and-validated", "NV == card(self.fields) and forall(lambda k: implies(contains(dict_of(self.fields), k), contains(dict_of(message), k)), 'val')", ["C14"]),
+                  ("accepted-means-no-undeclared-field-unless-allowed",
+                   "self.allow_additional_fields or forall(lambda k: implies(contains(dict_of(message), k), contains(dict_of(self.fields), k) or k == 'task_level' or k == 'task_uuid' or k == 'timestamp'), 'val')", ["C14"]),
+                  ("message-not-modified", "dict_of(message) == old(dict_of(message))", ["C14"])],
+         raises=[{"cls": "ValidationError", "ensures": [("rejected-for-a-missing-or-undeclared-field-or-by-a-field-validator",
+                   "not is_subset(dom(self.fields), dom(message)) or (not self.allow_additional_fields and "
+                   "not is_subset(dom(message), union(dom(self.fields), setof('task_level', 'task_uuid', 'timestamp')))) or "
+                   "(last(CALLS).tag == 'exc' and last(CALLS).d == box(exc))", ["C14"])]},
+                 {"cls": "BaseException", "ensures": [("rejected-because-a-field-validator-raised", "last(CALLS).tag == 'exc' and last(CALLS).d == box(exc)", ["C14"])]}])
